@@ -233,6 +233,9 @@ class _FakeImage:
 
     def __sarray__(self):
         if not self._load_ok:
+            from ..core import cur
+            if cur().decide(z3.Bool("load_fails_with_value_error")):
+                raise ValueError("tile cannot extend outside image")       # Pillow also reports corrupt data this way
             raise OSError("image file is truncated (0 bytes not processed)")
         if self._pixels is None:
             w, h = self.size
@@ -248,8 +251,13 @@ def _fake_pil(ctx, wmax, hmax, made):
     class UnidentifiedImageError(OSError):
         pass
 
+    class DecompressionBombError(Exception):      # Pillow: derives from Exception, not from OSError
+        pass
+
     def open_(fp, *a, **k):
         if ctx.decide(z3.Bool("open_fails")):
+            if ctx.decide(z3.Bool("open_fails_with_bomb_error")):
+                raise DecompressionBombError("Image size (4294836225 pixels) exceeds limit of 178956970 pixels, could be decompression bomb DOS attack.")
             raise UnidentifiedImageError("cannot identify image file")
         mi, w, h = z3.Int("mode"), z3.Int("w"), z3.Int("h")
         ctx.assume(z3.And(mi >= 0, mi < len(_MODES), w >= 1, w <= wmax, h >= 1, h <= hmax))
@@ -277,7 +285,7 @@ def H_jpeg(ctx, cfg):
     load.patch("_jpeg", np=npx, PIL=pil, io=types.SimpleNamespace(BytesIO=lambda b: b))
     enc = ce.JpegChunkEncoder("uint8", C, jpeg_plane=cfg.get("plane", "xy"))
     buf = SBytes([z3.BitVec(f"b{i}", 8) for i in range(4)])
-    ctx.input("stub", dict(open_fails=z3.Bool("open_fails"), load_fails=z3.Bool("load_fails"), mode=z3.Int("mode"),
+    ctx.input("stub", dict(open_fails=z3.Bool("open_fails"), bomb=z3.Bool("open_fails_with_bomb_error"), load_fails=z3.Bool("load_fails"), mode=z3.Int("mode"),
                            w=z3.Int("w"), h=z3.Int("h")))
     try:
         out = enc.decode(buf, (X, Y, Z))
@@ -311,7 +319,17 @@ def _replay_jpeg(cfg, inp):
     Z, Y, X = cfg["shape"]
     enc = ce.JpegChunkEncoder("uint8", C, jpeg_plane=cfg.get("plane", "xy"))
     truthy = lambda v: v in (True, "True", 1)
-    if truthy(st["open_fails"]):
+    if truthy(st["open_fails"]) and truthy(st.get("bomb")):
+        # a JPEG whose frame header announces 65535 x 65535 pixels: Pillow refuses it with DecompressionBombError
+        f = io.BytesIO()
+        PIL.Image.fromarray(real_np.zeros((8, 8), dtype=real_np.uint8)).save(f, format="jpeg")
+        b = bytearray(f.getvalue())
+        for marker in (b"\xff\xc0", b"\xff\xc2"):
+            i = b.find(marker)
+            if i >= 0:
+                b[i + 5:i + 9] = b"\xff\xff\xff\xff"
+        buf, desc, valid = bytes(b), "JPEG announcing 65535x65535 pixels", False
+    elif truthy(st["open_fails"]):
         buf, desc, valid = b"\xff\xd8 not a jpeg", "garbage", False
     else:
         mode = _MODES[int(st["mode"])]
